@@ -60,7 +60,7 @@ POOL = [
 ]
 
 SEL_OBJECTS = ['a', 1, (1, 2), 0.5]
-ROUTES = ['default', 'ctor', 'inst', 'cls', 'update', 'clsupdate', 'deser', 'reconf_cls', 'reconf_inst', 'inherit']
+ROUTES = ['default', 'ctor', 'inst', 'cls', 'update', 'clsupdate', 'deser', 'reconf_cls', 'reconf_inst', 'inherit', 'ctor_const', 'edit_const']
 DESER_TYPES = {'Parameter', 'String', 'Boolean', 'Number', 'Integer', 'Magnitude', 'List', 'Dict', 'Selector', 'ObjectSelector', 'Color'}
 
 
@@ -285,8 +285,8 @@ class C01(Harness):
                 else:
                     return Result([], nontrivial=False, outcome='unsatisfiable-config')
 
-        def build(dflt):
-            k = dict(kw)
+        def build(dflt, **more):
+            k = dict(kw, **more)
             if pt in ('Selector', 'ObjectSelector', 'ListSelector'):
                 k['objects'] = list(k['objects']) if isinstance(k['objects'], list) else dict(k['objects'])
             return ptype(default=dflt, **k)
@@ -317,8 +317,20 @@ class C01(Harness):
                     X = type('X', (param.Parameterized,), {'p': p})
                     got_back = X.p
                 else:
-                    X = type('X', (param.Parameterized,), {'p': build(default)})
-                    if route == 'ctor':
+                    X = type('X', (param.Parameterized,), {'p': build(default, **({'constant': True} if route in ('ctor_const', 'edit_const') else {}))})
+                    if route == 'ctor_const':
+                        # a constant parameter takes its value through the constructor: validated like any other
+                        x = X(p=v)
+                        got_back = x.p
+                    elif route == 'edit_const':
+                        x = X()
+                        prev = x.p
+                        try:
+                            with param.edit_constant(x):
+                                x.p = v
+                        finally:
+                            got_back = x.p
+                    elif route == 'ctor':
                         x = X(p=v)
                         got_back = x.p
                     elif route == 'inst':
@@ -389,7 +401,7 @@ class C01(Harness):
                 same = got_back is v or (route == 'deser' and got_back == v) or (pt == 'Filename' and os.path.basename(str(got_back)) == os.path.basename(str(v)))
                 if not same and not _is_copy_ok(pt, route, got_back, v):
                     vs.append(V('read-back', '%s(%s) accepted %s via route %s but reads back %r' % (pt, _cfgstr(cfg), label, route, got_back), **key))
-            elif route in ('inst', 'cls', 'update', 'clsupdate', 'reconf_cls', 'reconf_inst', 'inherit'):
+            elif route in ('inst', 'cls', 'update', 'clsupdate', 'reconf_cls', 'reconf_inst', 'inherit', 'edit_const'):
                 if got_back is not prev and not (pt == 'Filename' and got_back == prev):
                     vs.append(V('rejected-but-changed', '%s(%s) rejected %s via route %s but the value changed from %r to %r' % (
                         pt, _cfgstr(cfg), label, route, prev, got_back), **key))
